@@ -398,7 +398,7 @@ func run(r *mon.Run) {
 	// (value, head size) pairs incl. non-shortest heads; streams; round trip
 	nSeeded := 4000
 	if r.Thorough {
-		nSeeded = 60000
+		nSeeded = 3000000
 	}
 	vals := []uint64{0, 1, 22, 23, 24, 25, 254, 255, 256, 257, 65534, 65535, 65536, 65537, 1<<31 - 1, 1 << 31, 1<<32 - 1, 1 << 32, 1<<32 + 1, 1<<63 - 1, 1 << 63, 1<<63 + 1, ^uint64(0) - 1, ^uint64(0)}
 	for i := 0; i < nSeeded; i++ {
